@@ -458,11 +458,73 @@ theorem insLoop_first (c : Cfg) (gs : List (Option Int)) (a af : InsAcc) (e : Op
       rw [hfirst, hev, hinv]
       cases a.evs <;> simp
 
+/-! ## Rows that reach the editor without `AutoIncrement.Eval` (table rewrites) -/
+
+theorem afterInsert_ge (c : Cfg) (k : Nat) (v : Int) : k ≤ afterInsert c k v := by
+  have := afterInsert_spec c k v; omega
+
+theorem afterInsert_le_hi (c : Cfg) (k : Nat) (v : Int) (hk : (k : Int) ≤ c.hi) (hv : v ≤ c.hi) :
+    (afterInsert c k v : Int) ≤ c.hi := by
+  have := afterInsert_spec c k v; omega
+
+theorem reinsertCtr_ge (c : Cfg) (rows : List Row) (k : Nat) : k ≤ reinsertCtr c k rows := by
+  induction rows generalizing k with
+  | nil => exact Nat.le_refl _
+  | cons r rs ih =>
+    have h1 := afterInsert_ge c k r.id
+    have h2 := ih (afterInsert c k r.id)
+    simp only [reinsertCtr, List.foldl_cons] at h2 ⊢
+    omega
+
+theorem reinsertCtr_le_hi (c : Cfg) (rows : List Row) (k : Nat) (hk : (k : Int) ≤ c.hi)
+    (hr : ∀ r ∈ rows, r.id ≤ c.hi) : (reinsertCtr c k rows : Int) ≤ c.hi := by
+  induction rows generalizing k with
+  | nil => exact hk
+  | cons r rs ih =>
+    have h1 := afterInsert_le_hi c k r.id hk (hr r (by simp))
+    have h2 := ih (afterInsert c k r.id) h1 (fun x hx => hr x (by simp [hx]))
+    simpa only [reinsertCtr, List.foldl_cons] using h2
+
+/-- **The editor alone keeps the counter above the rows it stores.** After any list of rows went
+through `tableEditor.Insert` directly (a table rewrite re-inserting the old rows after the
+truncation, a loader writing through `sql.RowInserter`), every one of them is below the counter,
+or the counter is stuck at the type maximum — whatever the order and whatever gaps the ids have.
+(This is what the `cmp > 0 ⇒ set, bump` branch of the editor is for: `AutoIncrement.Eval` never
+saw these rows.) -/
+theorem reinsert_covers_rows (c : Cfg) (rows : List Row) (k : Nat) (hk : (k : Int) ≤ c.hi)
+    (hr : ∀ r ∈ rows, r.id ≤ c.hi) :
+    ∀ r ∈ rows, r.id < (reinsertCtr c k rows : Int) ∨ ((reinsertCtr c k rows : Int) = c.hi ∧ r.id ≤ c.hi) := by
+  induction rows generalizing k with
+  | nil => intro r hr; cases hr
+  | cons x xs ih =>
+    intro r hmem
+    have hx := hr x (by simp)
+    have h1 := afterInsert_le_hi c k x.id hk hx
+    have hge := reinsertCtr_ge c xs (afterInsert c k x.id)
+    have hle := reinsertCtr_le_hi c xs (afterInsert c k x.id) h1 (fun y hy => hr y (by simp [hy]))
+    have hs := afterInsert_spec c k x.id
+    rcases List.mem_cons.mp hmem with heq | hin
+    · subst heq
+      simp only [reinsertCtr, List.foldl_cons] at hge hle ⊢
+      omega
+    · have := ih (afterInsert c k x.id) h1 (fun y hy => hr y (by simp [hy])) r hin
+      simpa only [reinsertCtr, List.foldl_cons] using this
+
+/-- A rewrite of a table whose rows are all in the log keeps the counter invariant's *row* part:
+the next generated id exceeds every stored id (or the counter is saturated). -/
+theorem rewrite_counter_above_rows (c : Cfg) (s : St) (h1 : (1 : Int) ≤ c.hi)
+    (hr : ∀ r ∈ s.tbl.rows, r.id ≤ c.hi) :
+    ∀ r ∈ (step c s .rewrite).1.tbl.rows,
+      r.id < ((step c s .rewrite).1.tbl.ctr : Int) ∨
+      (((step c s .rewrite).1.tbl.ctr : Int) = c.hi ∧ r.id ≤ c.hi) := by
+  simp only [step]
+  exact reinsert_covers_rows c s.tbl.rows 1 (by simpa using h1) hr
+
 /-! ## Histories -/
 
 /-- A lowering ALTER or a re-generation (the three "values" regions). -/
 def valueRegion : Region → Bool
-  | .alter_below_existing | .alter_below_counter | .saturated_reuse => true
+  | .alter_below_existing | .alter_below_counter | .saturated_reuse | .rewrite_lowers_counter => true
   | _ => false
 
 theorem step_good (c : Cfg) (s : St) (o : Op)
@@ -517,6 +579,20 @@ theorem step_good (c : Cfg) (s : St) (o : Op)
   | trunc =>
     simp only [step]
     exact ⟨(by intro w hw; cases hw), rfl⟩
+  | rewrite =>
+    simp only [step] at hfl ⊢
+    refine ⟨?_, hg⟩
+    have hge : ¬ (reinsertCtr c 1 s.tbl.rows < s.tbl.ctr) := by
+      intro hlt
+      simp only [hlt, if_true] at hfl
+      have := hfl Region.rewrite_lowers_counter (by simp); simp [valueRegion] at this
+    generalize reinsertCtr c 1 s.tbl.rows = n at hge
+    intro w hw
+    rcases hinv w hw with h | ⟨h1, h2⟩
+    · left; omega
+    · by_cases heq : n = s.tbl.ctr
+      · right; rw [heq]; exact ⟨h1, h2⟩
+      · left; omega
 
 theorem run_good (c : Cfg) (s : St) (h : List Op)
     (hinv : CtrInv c s.tbl.ctr s.log) (hg : goodLog s.log = true)
@@ -586,7 +662,8 @@ theorem invariant_step (c : Cfg) (s : St) (o : Op)
 /-
 Full statement (FALSE on the unchanged code; kept visible):
   theorem gen_exceeds_all_earlier (c h) : ∀ a e b, (run c St.init h).1.log = a ++ e :: b → e.gen → ∀ w ∈ a, w.v < e.v
-Witnesses: `finding_alter_below_existing`, `finding_alter_below_counter`, `finding_saturated_reuse`.
+Witnesses: `finding_alter_below_existing`, `finding_alter_below_counter`, `finding_saturated_reuse`,
+`finding_rewrite_lowers_counter`.
 -/
 
 def t8 : Cfg := ⟨-128, 127, true⟩
@@ -606,6 +683,17 @@ theorem finding_alter_below_counter :
 theorem finding_saturated_reuse :
     ∃ c h, goodLog (run c St.init h).1.log = false ∧ (run c St.init h).2 = [Region.saturated_reuse] :=
   ⟨t8key, [.ins 0 [some 126], .ins 0 [none], .ins 0 [none]], by decide⟩
+
+/-- ids 1..3 generated, 10 explicit and deleted again, then a table rewrite (ALTER TABLE … DROP
+COLUMN): the counter 11 is re-derived as 4 and the next generated id is 4 < 10. -/
+theorem finding_rewrite_lowers_counter :
+    ∃ c h, goodLog (run c St.init h).1.log = false ∧ (run c St.init h).2 = [Region.rewrite_lowers_counter] :=
+  ⟨t8, [.ins 0 [none, none, none], .ins 0 [some 10], .del 10 10, .rewrite, .ins 0 [none]], by decide⟩
+
+/-- A rewrite of a table with gaps in its ids (1,2,3,10 stored) keeps the counter at 11: the next
+generated id is 11 (non-vacuity of `rewrite_counter_above_rows`; no region is raised). -/
+example : (run t8 St.init [.ins 0 [none, none, none], .ins 0 [some 10], .rewrite, .ins 0 [none]]).1.tbl.ctr = 12 ∧
+    (run t8 St.init [.ins 0 [none, none, none], .ins 0 [some 10], .rewrite, .ins 0 [none]]).2 = [] := by decide
 
 /-- With a PRIMARY KEY / UNIQUE column the saturated counter makes the insert fail (duplicate key)
 as long as the maximum is still stored … -/
